@@ -5,6 +5,16 @@ HERE = os.path.dirname(os.path.dirname(os.path.abspath(__file__)))
 ids = [json.loads(l)["id"] for l in open(os.path.join(HERE, "properties.jsonl"))]
 
 CLAIMS = {
+ "C18": dict(
+   text="The switch's buffer pool is proved for pools of ANY length (symbolic list, loop invariant for the free-slot search): "
+        "_buffer_packet returns None iff the pool is full (and then changes nothing), otherwise an id whose slot was free and "
+        "now holds exactly this packet and port, all other slots unchanged, size within max_buffers; using an id emits that "
+        "slot's packet once with the given actions and frees it, unknown/used ids emit nothing and change nothing; packet-out "
+        "and flow-mod release exactly the buffer they name; packet-in carries the whole frame when unbuffered, at most "
+        "miss_send_len bytes when buffered, and the true total length.",
+   note="trusted: pyvc, z3; action application (C12) and flow-mod handlers (C04) are callees under contract; the history "
+        "statement follows by induction over these per-operation contracts (argument in DESIGN.md).",
+   ref="7/C18"),
  "C02": dict(
    text="Connection.read (controller) and OFConnection.read + IOWorker receive helpers (switch) are proved, for an arbitrary "
         "buffer and an arbitrary received chunk, to decode and hand over exactly the frames at the boundaries cut(k) of the "
